@@ -1,7 +1,7 @@
 """C13 - Tables behave like a list of rows; tree sequences never change (structural clauses)."""
 from __future__ import annotations
 
-from . import scopes, lib_kind
+from . import scopes, lib_kind, lib_kind4
 from . import lib_schema, lib_module, lib_py, lib_mem
 
 LEVEL = "other"
@@ -35,6 +35,7 @@ def run(ctx):
     lib_py.ll_positional(ctx, py, P, only=ps)
     lib_py.unused_params(ctx, py, mods=("tables",), only=ps)
     lib_kind.py_lints(ctx, py, mods=("tables",), only=ps)
+    lib_kind4.row_eager(ctx, py)
     lib_kind.dict_atomic(ctx, P)
     lib_kind.takeset_atomic(ctx, P)
     from . import lib_kind3
